@@ -391,6 +391,31 @@ pub fn special_cases() -> Vec<(String, Vec<u8>)> {
         fb.finish_stream(&[("Root", Val::r(1))], &XrefStreamOpts::new(9));
         v.push((name.to_string(), fb.bytes()));
     }
+    // object stream offset tables: every pair of member offsets over a boundary set (ascending, equal, descending, at and beyond the
+    // end of the data), both members referenced from the cross-reference stream
+    {
+        let m0 = b"<< /In 1 >>";
+        let m1 = b"42";
+        let body_len = m0.len() + 1 + m1.len(); // 14
+        for a in [0usize, 3, 11, 12, 13, 14, 15, 1000] {
+            for b in [0usize, 3, 11, 12, 13, 14, 15, 1000] {
+                let mut fb = FileBuilder::new(b"");
+                basic(&mut fb);
+                let header = format!("5 {} 6 {} ", a, b);
+                let mut data = header.clone().into_bytes();
+                data.extend_from_slice(m0);
+                data.push(b' ');
+                data.extend_from_slice(m1);
+                let _ = body_len;
+                fb.add_raw(8, 0, format!("<< /Type /ObjStm /N 2 /First {} /Length {} >>\nstream\n{}\nendstream", header.len(), data.len(), String::from_utf8_lossy(&data)).as_bytes());
+                fb.section.insert(5, Entry::Compressed { stm: 8, idx: 0 });
+                fb.section.insert(6, Entry::Compressed { stm: 8, idx: 1 });
+                fb.size = 9;
+                fb.finish_stream(&[("Root", Val::r(1))], &XrefStreamOpts::new(9));
+                v.push((format!("objstm-offsets-{}-{}", a, b), fb.bytes()));
+            }
+        }
+    }
     // page tree whose subtree counts add up beyond 32 bits
     {
         let mut fb = FileBuilder::new(b"");
@@ -568,7 +593,7 @@ pub fn run(tier: Tier, _seed: u64, tally: &mut Tally) -> CheckMeta {
     CheckMeta {
         prop: "C14",
         level: "fault_enumeration",
-        rule: format!("base documents {:?} (rich document + indirect /Length, functions of types 0/2/4, Separation/DeviceN/nested Indexed/ICC colour spaces, CCITT image, soft mask, embedded-files name tree, number tree with kids, field hierarchy); single faults: every one of {} reference occurrences re-pointed at every object of the document, an undefined number, 0 and a number beyond /Size, and every one of {} integer occurrences set to each of {{-1, 0, 1, 2, 3, 16, 2^31-1, 2^32-1, 2^64-1, -2^31, 65536}}; indirection faults: every one of {} value positions (whole objects included) replaced by a reference to a self-referencing object, a two-object reference cycle, the containing object, or a new object holding the old value; double faults: all pairs of re-wirings inside 9 structural fragments; {} special structures (/Prev loops, nesting 20..200000, object streams containing/extending themselves, xref stream /W (full product over 7 widths) /Index /Size, 8-byte offsets near 2^64 with and without a prefix, object stream header numbers near 2^63, page-tree counts summing beyond 2^32, classic table boundary values, PostScript roll/index/copy operands). Every case x {{strict, tolerant}} x {{cached, uncached}} is walked completely (C01 walker incl. scan and function application) in a worker process: no panic, no crash (stack overflow, abort, OOM under a 3 GiB address-space limit), no call exceeding 10 s. Distinct by file hash x configuration.", &BASES[..nbases], n_ref_fields, n_int_fields, n_positions, specials.len()),
+        rule: format!("base documents {:?} (rich document + indirect /Length, functions of types 0/2/4, Separation/DeviceN/nested Indexed/ICC colour spaces, CCITT image, soft mask, embedded-files name tree, number tree with kids, field hierarchy); single faults: every one of {} reference occurrences re-pointed at every object of the document, an undefined number, 0 and a number beyond /Size, and every one of {} integer occurrences set to each of {{-1, 0, 1, 2, 3, 16, 2^31-1, 2^32-1, 2^64-1, -2^31, 65536}}; indirection faults: every one of {} value positions (whole objects included) replaced by a reference to a self-referencing object, a two-object reference cycle, the containing object, or a new object holding the old value; double faults: all pairs of re-wirings inside 9 structural fragments; {} special structures (/Prev loops, nesting 20..200000, object streams containing/extending themselves, xref stream /W (full product over 7 widths) /Index /Size, 8-byte offsets near 2^64 with and without a prefix, object stream header numbers near 2^63 and every pair of member offsets over 8 boundary values, page-tree counts summing beyond 2^32, classic table boundary values, PostScript roll/index/copy operands). Every case x {{strict, tolerant}} x {{cached, uncached}} is walked completely (C01 walker incl. scan and function application) in a worker process: no panic, no crash (stack overflow, abort, OOM under a 3 GiB address-space limit), no call exceeding 10 s. Distinct by file hash x configuration.", &BASES[..nbases], n_ref_fields, n_int_fields, n_positions, specials.len()),
         assumptions: vec!["time and memory proportionality is decided only against fixed generous thresholds (10 s, 3 GiB) - three orders of magnitude above the normal cost of these ~10 KB documents".into()],
         exhaustive: true,
         bounds: json!({"faults": 2}),
